@@ -37,6 +37,10 @@ def main():
             'worktree; it keeps the 406 tests green and comes with a demonstration that fails with the change and',
             'passes without it (`seeded/<name>/`). "caught" = the property\'s quick check exits 1 with a VIOLATION',
             'line; "input" = with a concrete failing input whose replay fails on the changed tree and holds on /repo.', '',
+            'The table shows the verdict of the checks AS THEY ARE NOW; about a third of these changes were',
+            'missed (or caught without a reproducing input) by the first version of the check they target.',
+            '`seeded/HISTORY.md` records those first verdicts and what was changed in response - most misses',
+            'were history-dependent changes, boundary values of derived bytes, or content outside the generators\' reach.', '',
             '| name | property | confirmed | caught | input | first violation reported |', '|---|---|---|---|---|---|']
     for f in sorted((V / 'seeded').glob('*/meta.json')):
         m = json.loads(f.read_text())
